@@ -1,7 +1,8 @@
 /-
   Response packing of the router (C09).  Mirrors /repo/app/router:
     server_utils.go  packResp (limit capped at 65535), packRespTCP (limit 65535, 2-octet length prefix)
-    server_udp.go    udpServer.handleReq: client limit = class of the query's last OPT record, floor 512
+    server_udp.go    udpServer.handleReq: client limit = class of the query's OPT record (utils.go queryOpt: the
+                     first OPT found in additionals, authorities, answers), floor 512, cap 65507
   and the line protocol of the harness components `packresp` / `packtcp`.
 -/
 import MosVerif.Model.WireIO
@@ -11,6 +12,7 @@ namespace MosVerif.Wire
 
 def respCap : Nat := Facts.resp_cap          -- 65535
 def udpFloor : Nat := Facts.udp_floor        -- 512
+def udpMax : Nat := Facts.udp_max            -- 65507 = maxUdpPayloadSize
 
 /-- `packResp(m, compression, size)`: the buffer has `m.Len()` octets. -/
 def packResp (m : Msg) (c : Bool) (size : Nat) : Res Bytes :=
@@ -23,11 +25,19 @@ def packRespTCP (m : Msg) (c : Bool) : Res Bytes := do
   let body ← packMsg m c respCap (msgLen m)
   .ok (enc16 (body.length % 65536) ++ body)
 
-/-- the loop and the floor of `udpServer.handleReq`: the class of the last OPT record of the
-    query's additional section, at least 512 -/
-def clientUdpSize (additionals : List Resource) : Nat :=
-  let s := additionals.foldl (fun acc r => if r.rtype = typeOPT then r.rclass else acc) 0
-  if s < udpFloor then udpFloor else s
+/-- `queryOpt`: the first OPT record of the query, looking at the additional, authority and answer
+    sections in this order -/
+def queryOpt (q : Msg) : Option Resource :=
+  (q.additionals ++ q.authorities ++ q.answers).find? (fun r => r.rtype == typeOPT)
+
+/-- the limit `udpServer.handleReq` packs the response with: the class of the query's OPT record,
+    at least 512, at most 65507 -/
+def clientUdpSize (q : Msg) : Nat :=
+  let s := match queryOpt q with
+    | some o => o.rclass
+    | none => 0
+  let s := if s < udpFloor then udpFloor else s
+  if s > udpMax then udpMax else s
 
 end MosVerif.Wire
 
